@@ -50,6 +50,7 @@ class TypeGen:
         self.allow_inherit = True
         self.allow_field_engine = True
         self.allow_stype = not schema_only
+        self.allow_talias = True
         self.dc_config_fn = dc_config_fn
         self.mixins = mixins
         self.vgen = Gen(fam, rng)
@@ -188,6 +189,11 @@ class TypeGen:
                 return inner   # NewType needs a class-like supertype
             self.fam.add({"k": "newtype", "name": name, "t": inner})
             return ("newtype", name, inner)
+        if x < 0.938 and self.allow_talias:
+            name = self.fresh("TA")
+            inner = self.type(depth - 1)
+            self.fam.add({"k": "talias", "name": name, "t": inner})
+            return ("talias", name, inner)
         if x < 0.945:
             return ("ann", self.type(depth - 1), (repr("tag"),))
         if x < 0.957 and self.allow_generic:
@@ -199,7 +205,7 @@ class TypeGen:
     @staticmethod
     def _pipe_ok(t):
         # `X | None` needs a real class / generic alias on the left at runtime
-        return t[0] not in ("lit", "ann", "newtype", "any", "td")
+        return t[0] not in ("lit", "ann", "newtype", "any", "td", "talias")
 
     def utuple(self, sp, depth):
         r = self.rng
